@@ -170,3 +170,37 @@ pub fn cut_unguarded(c: u32, a: u32, b: u32) -> bool {
 pub fn cut_guarded(c: u32, a: u32, b: u32) -> bool {
     c > 0 && signed_count(a, b) < c as i32
 }
+
+// --- inlining of helpers unknown to the rules (sa/inline.py): the caller must be analysed as if the
+// helper's body stood in its place
+fn inl_enough(c: u32, a: u32, b: u32) -> bool {
+    c == 0 || signed_count(a, b) >= c as i32
+}
+pub fn inl_bool_caller(c: u32, a: u32, b: u32) {
+    if !inl_enough(c, a, b) {
+        return;
+    }
+    sink(a)
+}
+fn inl_check(len: usize, c: u32) -> Result<(), u32> {
+    if len < c as usize {
+        return Err(c);
+    }
+    Ok(())
+}
+pub fn inl_try_caller(len: usize, c: u32) -> Result<u32, u32> {
+    inl_check(len, c)?;
+    sink(c);
+    Ok(c)
+}
+fn inl_check_wrong(len: usize, c: u32) -> Result<(), u32> {
+    if len < c as usize {
+        return Ok(());
+    }
+    Ok(())
+}
+pub fn inl_try_caller_wrong(len: usize, c: u32) -> Result<u32, u32> {
+    inl_check_wrong(len, c)?;
+    sink(c);
+    Ok(c)
+}
